@@ -28,7 +28,7 @@ namespace {
 // ---------------------------------------------------------------------------------------------------------------
 // sub `timers`
 // ---------------------------------------------------------------------------------------------------------------
-enum { CFG, NEW, INIT, ENABLE, DISABLE, DESTROY, ADV, CLEANUP, CANCEL_STALE, NOPS };
+enum { CFG, NEW, INIT, ENABLE, DISABLE, DESTROY, ADV, CLEANUP, CANCEL_STALE, WORK, NOPS };
 // callback script actions
 enum { A_NONE, A_DIS_SELF, A_DIS_OTHER, A_EN_OTHER, A_REINIT_OTHER, A_DESTROY_OTHER, A_NEW, A_EN_SELF, A_REINIT_EN_OTHER, A_RESTART_OTHER, A_REINIT_SELF, A_CANCEL_STALE, A_CLEANUP, NACT };
 // clock advance kinds
@@ -41,6 +41,8 @@ const uint64_t kFireCap = 300;     // callbacks per loop pass after which every 
 const int kGracePasses = 3;        // extra passes (clock unchanged) a due timer is given before it counts as missing
 const int64_t kMaxInterval = 10000000;
 const uint64_t kStarts[] = {1000000, 1, (1ull << 31) - 3, (1ull << 32) - 3, 1ull << 52};
+// "this callback takes x ms": the virtual clock moves on INSIDE a timer callback (index 6/7: the acting timer's own interval / +1)
+const uint64_t kDawdle[] = {1, 2, 3, 7, 20, 90, 0, 0};
 const int64_t kCbIntervals[] = {1, 2, 3, 10, 100, 1000, 65536, 10000000};   // intervals chosen by callback actions
 
 // integer argument: the value itself when it is inside [lo,hi] (friendly to hand-written replays), otherwise reduced
@@ -93,6 +95,7 @@ struct Ctx {
   size_t ip = 0;
   int grace = 0, finale = 0;
   int cur_cb = -1;                      // id of the timer whose callback is running
+  uint64_t pass_start = 0;              // clock value at the end of the latest driver step = when the loop pass began
   int life = 0;                         // pool mode: cleanup() calls so far (the SAME pool object is used on)
   bool not_running = false;             // operations are being issued before runLoop()
   uint64_t storm = 0;                   // callbacks seen after the first failure
@@ -106,7 +109,7 @@ struct Ctx {
        c_persist_fired = false, c_grace = false, c_cleanup = false, c_reenable = false, c_same_pass_multi = false,
        c_heap_middle = false, c_reinit_self_cb = false,
        c_cleanup_cb = false, c_stale_old_life = false, c_stale_same_life = false, c_stale_cb = false, c_new_life_fired = false,
-       c_cleanup_then_followup_cb = false;
+       c_cleanup_then_followup_cb = false, c_dawdle = false, c_enable_after_dawdle = false, c_due_within_pass = false, c_work = false;
 
   Ctx(const Scenario &s, CaseInfo &i) : scn(s), info(i) {}
 
@@ -127,7 +130,9 @@ struct Ctx {
 
   std::vector<T*> aliveList() const { std::vector<T*> v; for (auto &p : ts) if (p->alive) v.push_back(p.get()); return v; }
   int aliveCount() const { int n = 0; for (auto &p : ts) if (p->alive) ++n; return n; }
-  bool isDue(const T &x) const { return x.alive && x.enabled && x.deadline <= now(); }
+  // due in the loop pass that is running / has just run: the loop reads its clock once when the pass begins
+  // (pass_start); a deadline that is reached only because the clock moves on during the pass belongs to the next pass
+  bool isDue(const T &x) const { return x.alive && x.enabled && x.deadline <= pass_start; }
 
   // ---- operations: applied to the real object and to the model at once -----------------------------------------
   T *opNew(uint64_t interval, bool oneshot, const int64_t *script) {
@@ -140,6 +145,7 @@ struct Ctx {
     if (use_pool) {
       // created enabled: doEvery/doAfter start the interval now
       x->enabled = true; x->t_enable = now(); x->deadline = now() + interval; x->fires = 0; x->life = life;
+      if (cur_cb >= 0 && now() > pass_start) c_enable_after_dawdle = true;
       setWhy(*x, "created through TimerPool (enabled)"); x->ever_enabled = true;
       auto cb = [self, id] { self->onFire(id); };
       x->tok = oneshot ? pool->doAfter(std::chrono::milliseconds(interval), cb) : pool->doEvery(std::chrono::milliseconds(interval), cb);
@@ -157,6 +163,7 @@ struct Ctx {
     else {
       if (x.ever_enabled) c_reenable = true;
       x.enabled = true; x.ever_enabled = true; x.t_enable = now(); x.deadline = now() + x.interval; x.fires = 0;
+      if (cur_cb >= 0 && now() > pass_start) c_enable_after_dawdle = true;
       setWhy(x, "enabled");
     }
     x.ev->enable();
@@ -305,6 +312,19 @@ struct Ctx {
     unsigned extra = (unsigned)((us >> 10) & 1023);
     uint64_t niv = (extra & 8) ? x.interval : (uint64_t)kCbIntervals[extra & 7];   // bit 3: same interval as the acting timer
     bool nshot = (extra >> 4) & 1;
+    unsigned pre = (unsigned)((us >> 20) & 15) % 9, post = (unsigned)((us >> 24) & 15) % 9;   // 0 = none, 1..8 = kDawdle index + 1
+    if (pre) dawdle(x, pre - 1);
+    act2(x, act, sel, extra, niv, nshot);
+    if (post) dawdle(x, post - 1);
+  }
+  // the callback of x works for a while: the monotonic clock moves on inside the loop pass
+  void dawdle(const T &x, unsigned i) {
+    uint64_t d = i == 6 ? x.interval : i == 7 ? x.interval + 1 : kDawdle[i];
+    if (d > 100000) d = 100000;
+    clk->now += d; c_dawdle = true;
+    C02_TRACE("t=%llu  the callback of timer %d took %llu ms", (unsigned long long)now(), x.id, (unsigned long long)d);
+  }
+  void act2(T &x, int act, unsigned sel, unsigned extra, uint64_t niv, bool nshot) {
     if (use_pool) {   // TimerPool offers only create and cancel
       switch (act) {
         case A_DIS_SELF: case A_REINIT_SELF: if (!x.oneshot) c_dis_self_persist = true; opDestroy(x); break;
@@ -348,14 +368,15 @@ struct Ctx {
     switch (kind) {
       case ADV_0: return 0;
       case ADV_1: return 1;
-      case ADV_NEXT_M1: if (!has) return x % 50; if (nd - n >= 1) c_minus1 = true; return nd - n >= 1 ? nd - n - 1 : 0;
-      case ADV_NEXT: if (!has) return x % 50; c_exact = true; return nd - n;
+      // (a deadline may already lie behind the clock when the clock moved on inside the previous pass: advance by 0 then)
+      case ADV_NEXT_M1: if (!has) return x % 50; if (nd > n) c_minus1 = true; return nd > n ? nd - n - 1 : 0;
+      case ADV_NEXT: if (!has) return x % 50; c_exact = true; return nd > n ? nd - n : 0;
       case ADV_PERIODS: {
-        if (pers.empty()) return has ? nd - n + x % 7 : x % 50;
+        if (pers.empty()) return has ? (nd > n ? nd - n : 0) + x % 7 : x % 50;
         T *p = pers[x % pers.size()];
         uint64_t k = 2 + (x >> 4) % 4, r;
         switch ((x >> 6) % 4) { case 0: r = 0; break; case 1: r = 1 % p->interval; break; case 2: r = p->interval - 1; break; default: r = p->interval / 2; }
-        return (p->deadline - n) + (k - 1) * p->interval + r;
+        return (p->deadline > n ? p->deadline - n : 0) + (k - 1) * p->interval + r;
       }
       case ADV_2P31: if (has) c_huge = true; return 1ull << 31;
       case ADV_2P40: if (has) c_huge = true; return 1ull << 40;
@@ -365,22 +386,34 @@ struct Ctx {
 
   // ---- one step of the driver task (inside the loop thread, outside any event callback) -----------------------------
   bool step(int) {
+    bool more = step2();
+    pass_start = clk->now;   // the loop pass that follows this driver step begins now
+    return more;
+  }
+  bool step2() {
     if (!err.empty()) return false;
-    uint64_t n = now();
-    // (a) nothing missing: every enabled timer whose deadline has been reached has been invoked by now.
-    //     The number of passes the loop needs for that is not asserted: a due timer gets a few more passes
-    //     with the clock unchanged before it counts as missing.
+    uint64_t n = now();            // may be later than P when callbacks of the pass took time
+    const uint64_t P = pass_start; // the clock when the pass that has just run began
+    // (a) nothing missing: every enabled timer whose deadline had been reached when the pass began has been invoked
+    //     by now.  (A deadline in (P, n] was reached only while the pass was running: that timer may fire in that
+    //     pass or in the next one - nothing is demanded here, the next pass begins at >= n and then it counts.)
+    //     The number of passes the loop needs is not asserted either: a due timer gets a few more passes with the
+    //     clock unchanged before it counts as missing.
     for (auto &p : ts) if (isDue(*p)) {
       if (grace < kGracePasses) { ++grace; return true; }
-      fail("MISSING: " + desc(*p) + " reached its deadline but was not invoked in the loop passes at " + u(n));
+      fail("MISSING: " + desc(*p) + " reached its deadline but was not invoked in the loop passes that began at " + u(P) + " (clock now " + u(n) + ")");
       return false;
     }
+    for (auto &p : ts) if (p->alive && p->enabled && p->deadline <= n) c_due_within_pass = true;
     if (grace) c_grace = true;
     grace = 0;
-    // (b) model-independent count: no period skipped, nothing extra, however late the pass was
+    // (b) model-independent count: no period skipped (every period that had elapsed when the pass began, however late
+    //     that was), nothing extra (never more than the periods elapsed by now).  With a clock that does not move inside
+    //     the pass P == n and this is "exactly floor((now - t_enable) / interval) callbacks".
     for (auto &p : ts) if (p->alive && p->enabled) {
-      if (p->oneshot) { if (n >= p->t_enable + p->interval) { fail("MISSING: one-shot " + desc(*p) + " was not invoked although " + u(n) + " >= t_enable + interval"); return false; } }
-      else if (p->fires != (n - p->t_enable) / p->interval) { fail("COUNT: " + desc(*p) + " has been invoked " + u(p->fires) + " times at " + u(n) + ", expected floor((now - t_enable) / interval) = " + u((n - p->t_enable) / p->interval)); return false; }
+      uint64_t lo = P > p->t_enable ? (P - p->t_enable) / p->interval : 0, hi = (n - p->t_enable) / p->interval;
+      if (p->oneshot) { if (lo >= 1) { fail("MISSING: one-shot " + desc(*p) + " was not invoked although the pass began at " + u(P) + " >= t_enable + interval"); return false; } }
+      else if (p->fires < lo || p->fires > hi) { fail("COUNT: " + desc(*p) + " has been invoked " + u(p->fires) + " times; pass began at " + u(P) + ", clock now " + u(n) + ": expected between floor((P - t_enable) / interval) = " + u(lo) + " and floor((now - t_enable) / interval) = " + u(hi)); return false; }
     }
     pass_fires = 0; group_n = 0; ++pass_no;
     // (c) outside-callback operations up to the next clock advance
@@ -409,6 +442,7 @@ struct Ctx {
         case DESTROY: if (al.empty()) break; opDestroy(*al[idxIn(op.arg(0), al.size())]); checkEnabled("destroy"); break;
         case CLEANUP: if (use_pool) opCleanup(); break;
         case CANCEL_STALE: if (use_pool) opCancelStale(op.arg(0)); break;
+        case WORK: { uint64_t d = (uint64_t)argIn(op, 0, 0, 200); clk->now += d; c_work = true; C02_TRACE("t=%llu  slow non-timer work: clock moved on by %llu (same driver step)", (unsigned long long)now(), (unsigned long long)d); break; }
         case ADV: { uint64_t d = advance(op); clk->now += d; C02_TRACE("t=%llu  clock advanced by %llu", (unsigned long long)now(), (unsigned long long)d); return true; }
         default: break;   // CFG after the first position: ignored
       }
@@ -442,7 +476,9 @@ struct Ctx {
     clk.reset(new vloop::Clock(kStarts[start]));
     if (use_pool) pool = new TimerPool(loop);
     // set-up before runLoop(): the operations up to the first clock advance are issued while the loop is not running
+    pass_start = clk->now;
     if (prestart) { not_running = true; applyOps(); not_running = false; checkEnabled("the operations before runLoop()"); }
+    pass_start = clk->now;
     try {
       vloop::drive(loop, [this](int p) { return step(p); });
     } catch (const Runaway &) {
@@ -487,6 +523,10 @@ struct Ctx {
     info.cls_if(cb_total == 0, "no_callback_at_all");
     info.cls_if(cb_total >= 20, "callbacks>=20");
     info.cls_if(c_grace, "needed_extra_pass");
+    info.cls_if(c_dawdle, "callback_takes_time_(clock_moves_inside_pass)");
+    info.cls_if(c_enable_after_dawdle, "enable_in_callback_after_clock_moved_inside_pass");
+    info.cls_if(c_due_within_pass, "deadline_reached_only_while_pass_was_running");
+    info.cls_if(c_work, "slow_work_between_operations");
     info.cls_if(c_cleanup, "pool_cleanup_mid_history");
     info.cls_if(c_cleanup_cb, "pool_cleanup_inside_callback");
     info.cls_if(c_cleanup_then_followup_cb, "pool_cleanup_then_followup_task_in_same_callback");
@@ -555,10 +595,13 @@ Scenario expand(int64_t seed, int size) {
   int npal = (int)rng(1, 3); int64_t pal[3];
   for (int i = 0; i < npal; ++i) pal[i] = fresh(mag);
   auto iv = [&]() -> int64_t { return rng(0, 9) < 7 ? pal[rng(0, npal - 1)] : fresh(mag); };
+  bool slowcase = rng(0, 2) == 0;   // a third of the cases: callbacks that take time (the clock moves on inside a loop pass)
   auto script = [&]() -> int64_t {
     int64_t act = pick({{8, A_NONE}, {2, A_DIS_SELF}, {4, A_DIS_OTHER}, {2, A_EN_OTHER}, {2, A_REINIT_OTHER}, {3, A_DESTROY_OTHER}, {2, A_NEW}, {2, A_EN_SELF}, {2, A_REINIT_EN_OTHER}, {2, A_RESTART_OTHER}, {2, A_REINIT_SELF}, {pool ? 2 : 0, A_CANCEL_STALE}, {pool ? 1 : 0, A_CLEANUP}});
-    if (act == A_NONE) return 0;
-    return act + 16 * rng(0, 63) + 1024 * rng(0, 1023);
+    int64_t slow = 0;   // bits 20-23: the callback takes time before its action, bits 24-27: after it
+    if (slowcase && rng(0, 1)) slow = (rng(0, 2) ? rng(1, 8) : 0) * (1 << 20) + (rng(0, 2) == 0 ? rng(1, 8) : 0) * (1 << 24);
+    if (act == A_NONE && !slow) return 0;
+    return act + 16 * rng(0, 63) + 1024 * rng(0, 1023) + slow;
   };
   bool quiet = rng(0, 5) == 0;   // a sixth of the cases: no scripts at all (pure outside-callback histories)
   auto mkNew = [&]() { mk(NEW, {iv(), pick({{3, 0}, {2, 1}}), quiet ? 0 : script(), quiet ? 0 : script(), quiet ? 0 : script(), quiet ? 0 : script()}); };
@@ -571,7 +614,7 @@ Scenario expand(int64_t seed, int size) {
   if (!pool) for (int i = 0; i < n0; ++i) if (rng(0, 9) < 8) mk(ENABLE, {i});
   int len = 10 + size; int nops = (int)rng(len / 3, len);
   while ((int)v.size() < nops) {
-    switch (pick({{30, ADV}, {pool ? 0 : 14, ENABLE}, {7, DISABLE}, {4, DESTROY}, {7, NEW}, {pool ? 2 : 6, INIT}, {pool ? 2 : 0, CLEANUP}, {pool ? 3 : 0, CANCEL_STALE}})) {
+    switch (pick({{30, ADV}, {pool ? 0 : 14, ENABLE}, {7, DISABLE}, {4, DESTROY}, {7, NEW}, {pool ? 2 : 6, INIT}, {pool ? 2 : 0, CLEANUP}, {pool ? 3 : 0, CANCEL_STALE}, {slowcase ? 3 : 0, WORK}})) {
       case ADV: advOp(); break;
       case ENABLE: mk(ENABLE, {rng(-3, 11)}); break;
       case DISABLE: mk(DISABLE, {rng(-3, 11)}); if (!pool && rng(0, 2) == 0) mk(ENABLE, {v.back().a[0]}); break;   // disable + re-enable: fresh interval
@@ -584,6 +627,7 @@ Scenario expand(int64_t seed, int size) {
         if (rng(0, 9) < 7) { int nc = (int)rng(1, 3); for (int i = 0; i < nc; ++i) mk(CANCEL_STALE, {rng(0, 9) < 7 ? rng(0, 7) : rng(-4, 40)}); }
         if (rng(0, 1)) advOp();
         break; }
+      case WORK: mk(WORK, {pick({{3, 1}, {2, 5}, {2, 30}, {1, 90}})}); break;
       case CANCEL_STALE: mk(CANCEL_STALE, {rng(0, 2) ? rng(0, 9) : rng(-6, 40)}); break;
     }
   }
@@ -593,8 +637,8 @@ Scenario expand(int64_t seed, int size) {
 
 SubDef def = [] {
   SubDef d; d.name = "timers";
-  d.op_names = {"cfg", "new", "init", "enable", "disable", "destroy", "adv", "cleanup", "cancelstale"};
-  d.op_arity = {4, 6, 3, 1, 1, 1, 2, 0, 1};
+  d.op_names = {"cfg", "new", "init", "enable", "disable", "destroy", "adv", "cleanup", "cancelstale", "work"};
+  d.op_arity = {4, 6, 3, 1, 1, 1, 2, 0, 1, 1};
   d.nt_rule = ">= 3 timers alive at once and (a callback disabled/re-initialised/destroyed a DIFFERENT timer that was due in the same pass, "
               "or a persistent timer was served by a pass that was >= 2 of its periods late, or >= 3 distinct timers fired on one shared deadline)";
 #ifndef VERIF_ENGINE_FUZZ
